@@ -994,3 +994,35 @@ pub fn systematic(
   }
   (runs, seen.len())
 }
+
+/// systematic phase for a property's thread part: `per` scenarios of each listed family
+pub fn systematic_families(
+  cfg: &Cfg,
+  rep: &mut Report,
+  salt: u64,
+  fams: &[usize],
+  tweak: &dyn Fn(&mut Scen, &mut Rng),
+  oracle: &dyn Fn(&Outcome, &Scen) -> Option<(String, serde_json::Value)>,
+) {
+  let per = cfg.n(3, 10);
+  let bound = cfg.n(1, 2);
+  let mut idx = 0usize;
+  for fam in fams {
+    for k in 0..per {
+      idx += 1;
+      if !cfg.mine(idx) {
+        continue;
+      }
+      let mut r = Rng::new(cfg.seed ^ salt ^ (*fam as u64 * 1000 + k as u64));
+      let mut s = random_scen(&mut r, *fam);
+      for t in s.threads.iter_mut() {
+        t.truncate(3);
+      }
+      s.workers = s.workers.min(1);
+      tweak(&mut s, &mut r);
+      systematic(cfg, rep, &format!("sys:{}:{}", fam, k), &s, bound, cfg.n(4_000, 60_000), oracle);
+      rep.count("systematic_scenarios", 1);
+      rep.set("thread_scenarios_covered", s.name);
+    }
+  }
+}
